@@ -94,6 +94,12 @@ def collect_S_forwarding(pid, tier):
             obs.append(Ob("S/fwd/%s/%s/%s" % (m["repr"], m["cell"], k), "ok" if v["ok"] else "failed", "vx-structural",
                           "" if v["ok"] else "body is %s, expected %s" % (v["got"], v["want"]),
                           sample={"function": k, "repr": m["repr"], "cell": m["cell"], "expected_body": v["want"]}))
+        for k in sorted(m.get("uncontracted_iter_methods", [])):
+            is_names = "[ENames]" in k
+            if (pid == "C08") != is_names:
+                continue
+            obs.append(Ob("S/uncontracted/%s/%s/%s" % (m["repr"], m["cell"], k), "undecided", "vx-structural",
+                          "the expansion contains an iterator method that has no contract in contracts/overlay.vspec; it is not verified"))
     return obs, {"forwarding_checked": len(obs)}
 
 
